@@ -199,7 +199,7 @@ def parse_terse(out):
         i += 1
     return res
 
-def run_kani(crate_dir, harnesses, features="", no_default=False, jobs=8, timeout=1500, extra_args=None, env=None, log_path=None, harness_timeout=600):
+def run_kani(crate_dir, harnesses, features="", no_default=False, jobs=8, timeout=1500, extra_args=None, env=None, log_path=None, harness_timeout=600, exact_ok=False):
     """harnesses: list of names (function names; matched as suffix of module path)"""
     cmd = ["cargo", "kani", "--lib", "-Z", "function-contracts", "-Z", "stubbing", "--output-format", "terse", "-j", str(jobs)]
     if harness_timeout:
@@ -208,6 +208,8 @@ def run_kani(crate_dir, harnesses, features="", no_default=False, jobs=8, timeou
         cmd += ["--features", features]
     if no_default:
         cmd += ["--no-default-features"]
+    if harnesses and all("::" in h or exact_ok for h in harnesses):
+        cmd += ["--exact"]
     for h in harnesses:
         cmd += ["--harness", h]
     if extra_args:
